@@ -34,6 +34,8 @@ inductive HOp (α : Type)
                                                               --   the iterator (`into_vec` / `into_box`: everything handed over)
   | inplace (op : MOp α)                                      -- every `TooDeeOpsMut` / `CopyOps` / `SortOps` / `TranslateOps` method and
                                                               --   indexed writes, as dispatched on `TooDee` (Impl/Recv.lean)
+  | viaView (s e : Nat × Nat) (ops : List (MOp α))            -- `{ let mut v = t.view_mut(s, e); v.op1(..); v.op2(..); … }`: a block of
+                                                              --   calls on a mutable view of the array (dispatched on `TooDeeViewMut`)
 
 /-- the allocator honoured `reserve`: the spare cells cover what the operation asked for -/
 def HOp.spareOk : HOp α → Prop
@@ -45,6 +47,7 @@ def HOp.spareOk : HOp α → Prop
     returns a permutation, the source of a `copy_from_toodee` is a valid array -/
 def HOp.wf : HOp α → Prop
   | .inplace op => op.Sane ∧ op.srcOk
+  | .viaView s e ops => (s.1 < WORD ∧ s.2 < WORD ∧ e.1 < WORD ∧ e.2 < WORD) ∧ ∀ op ∈ ops, op.Sane ∧ op.srcOk
   | op => op.spareOk
 
 /-- build environment of a history: profile, how many elements a `Vec<T>` can hold, how many entries a sort's side table can hold -/
@@ -93,6 +96,10 @@ def hstep (e : HEnv) (t : TD α) : HOp α → TD α
   | .capacityCall => t
   | .takeInto _ => TD.default
   | .inplace op => t.withData ((Recv.root t).run e.m e.lim t.data op)
+  | .viaView s e' ops =>
+    match VW.fromTooDee e.m s e' t with
+    | .ok v => { t with data := ((Recv.vmut v).runKeep e.m e.lim t.data ops).1 }
+    | .error _ => t
 
 /-- the outcome the caller sees -/
 def hres (e : HEnv) (t : TD α) : HOp α → Res Unit
@@ -109,6 +116,9 @@ def hres (e : HEnv) (t : TD α) : HOp α → Res Unit
     | none => pure ()
   | .clear | .swapDimensions | .capacityCall | .takeInto _ => pure ()
   | .inplace op => ((Recv.root t).run e.m e.lim t.data op).map fun _ => ()
+  | .viaView s e' ops => do
+    let v ← VW.fromTooDee e.m s e' t
+    ((Recv.vmut v).runKeep e.m e.lim t.data ops).2
 
 /-- the array after a history -/
 def hrun (e : HEnv) (t : TD α) (ops : List (HOp α)) : TD α := ops.foldl (hstep e) t
@@ -191,6 +201,15 @@ def gstep (g : List (List α)) : HOp α → Option (List (List α))
   | .fromVec c r v => if specShapeOk c r ∧ c * r = v.length then some (toRows c v) else some g
   | .swapDimensions => some (toRows g.length g.flatten)          -- same cells, rows of the old `num_rows` cells each
   | .inplace op => gstepM g op
+  | .viaView s e ops =>
+    if s.1 ≤ e.1 ∧ s.2 ≤ e.2 ∧ e.1 ≤ gcols g ∧ e.2 ≤ g.length then
+      -- cut the window out, run the block on it as on an array of its own, put the result back
+      let sz := viewSize s e
+      let sub := gridOf sz.1 sz.2 fun c r => gcell g (s.1 + c) (s.2 + r)
+      (ops.foldlM gstepM sub).map fun sub' =>
+        gridOf (gcols g) g.length fun c r =>
+          if s.1 ≤ c ∧ c < s.1 + sz.1 ∧ s.2 ≤ r ∧ r < s.2 + sz.2 then gcell sub' (c - s.1) (r - s.2) else gcell g c r
+    else some g
 
 /-- the plain model over a history -/
 def grun : List (List α) → List (HOp α) → Option (List (List α))
@@ -206,6 +225,7 @@ def HOp.fits (e : HEnv) (t : TD α) : HOp α → Prop
   | .inplace (.sortRow _ _) => t.numCols ≤ e.lim
   | .inplace (.sortCol _ _) => t.numRows ≤ e.lim
   | .inplace op => op.srcOk
+  | .viaView s e' ops => hres e t (.viaView s e' ops) = .ok ()      -- the block ran to its end (the plain model has no panics)
   | _ => True
 
 def hfits (e : HEnv) : TD α → List (HOp α) → Prop
@@ -256,6 +276,45 @@ def mflow (t : TD α) (op : MOp α) : Flow α :=
     | .set _ _ x | .setInRow _ _ x => { supplied := [x], dropped := [x] }
     | _ => {}
 
+/-- the same for a receiver that is a window `v` of root buffer `buf` (a mutable view) -/
+def VW.overwritten (v : VW) (buf : List α) (f : Nat × Nat → Option α) : List α :=
+  (List.range buf.length).filterMap fun p => (v.coord? p).bind fun cr => (f cr).bind fun _ => buf[p]?
+def VW.written (v : VW) (n : Nat) (f : Nat × Nat → Option α) : List α :=
+  (List.range n).filterMap fun p => (v.coord? p).bind f
+
+def MOp.cellsWrittenV (v : VW) (buf : List α) : MOp α → Option (Nat × Nat → Option α)
+  | .set c r x | .setInRow r c x => if c < v.numCols ∧ r < v.numRows then some (fun cr => if cr = (c, r) then some x else none) else none
+  | .fill x => some (fun _ => some x)
+  | .copyFromSlice src => if v.numCols * v.numRows = src.length then some (fun cr => src[cr.2 * v.numCols + cr.1]?) else none
+  | .copyFromTooDee src =>
+    match src.grid? with
+    | some sg => if sg.length = v.numRows ∧ gcols sg = v.numCols then some (fun cr => gcell sg cr.1 cr.2) else none
+    | none => none
+  | .copyWithin tl br dest =>
+    if rectsFit v.numCols v.numRows tl br dest then some (copyWithinCells v buf tl br dest) else none
+  | _ => none
+
+/-- flow of one in-place call on a view: as `mflow`; the default `fill` clones once per row and drops the value it was given, so on
+    a view the given `x` itself is always taken and dropped -/
+def vflow (v : VW) (buf : List α) (op : MOp α) : Flow α :=
+  match op.cellsWrittenV v buf with
+  | some f =>
+    let extra := match op with | .fill x => [x] | _ => []
+    { supplied := v.written buf.length f ++ extra, dropped := v.overwritten buf f ++ extra }
+  | none =>
+    match op with
+    | .set _ _ x | .setInRow _ _ x => { supplied := [x], dropped := [x] }
+    | _ => {}
+
+/-- flow of a block of calls on a view: the calls that ran, in order; the call that panicked (if any) only gives back what it was
+    handed -/
+def vflowRun (m : Mode) (lim : Nat) (v : VW) : List α → List (MOp α) → Flow α
+  | _, [] => {}
+  | buf, op :: ops =>
+    match (Recv.vmut v).run m lim buf op with
+    | .ok b => (vflow v buf op).append (vflowRun m lim v b ops)
+    | .error _ => (match op with | .set _ _ x | .setInRow _ _ x => { supplied := [x], dropped := [x] } | _ => {})
+
 /-- the elements one operation takes from the caller and the elements that leave the array during it -/
 def hflow (e : HEnv) (t : TD α) : HOp α → Flow α
   | .fromVec c r v => match TD.fromVec c r v with | .ok _ => { supplied := v, dropped := t.data } | .error _ => { supplied := v, dropped := v }
@@ -298,6 +357,10 @@ def hflow (e : HEnv) (t : TD α) : HOp α → Flow α
     match (Recv.root t).run e.m e.lim t.data op with
     | .ok _ => mflow t op
     | .error _ => (match op with | .set _ _ x | .setInRow _ _ x => { supplied := [x], dropped := [x] } | _ => {})
+  | .viaView s e' ops =>
+    match VW.fromTooDee e.m s e' t with
+    | .ok v => vflowRun e.m e.lim v t.data ops
+    | .error _ => {}
   | _ => {}                                                       -- capacity calls, swap_dimensions
 
 /-- the flow of a whole history -/
